@@ -301,8 +301,13 @@ func genJSONValid(r *rand.Rand, n int, w *bufio.Writer) {
 			emit("token", jvJoin(r, t, []int{0, 0, 3}[r.Intn(3)]))
 		case k < 440: // numbers: every good form and the broken ones, alone and inside a document
 			num := jvGoodNumber(r)
-			if r.Intn(3) > 0 {
+			switch r.Intn(4) {
+			case 0, 1:
 				num = jvBadNumbers[r.Intn(len(jvBadNumbers))]
+			case 2: // one octet of a good number replaced by a neighbour of the digit range / another number character
+				b := []byte(num)
+				b[r.Intn(len(b))] = pick(r, []byte("/:0019.eE+-"))
+				num = string(b)
 			}
 			switch r.Intn(4) {
 			case 0:
@@ -327,8 +332,14 @@ func genJSONValid(r *rand.Rand, n int, w *bufio.Writer) {
 			}
 		case k < 560: // strings: every escape, broken escapes, raw control characters, unterminated
 			s := `"` + jvGoodStringBody(r) + `"`
-			switch r.Intn(4) {
+			switch r.Intn(5) {
 			case 0:
+			case 4: // a \u escape with one of its four digits replaced by a neighbour of the hex ranges
+				e := []byte(`\u` + string([]byte{pick(r, []byte("0123456789abcdefABCDEF")), pick(r, []byte("09afAF")), pick(r, []byte("09afAF")), pick(r, []byte("0123456789abcdefABCDEF"))}))
+				if r.Intn(5) > 0 {
+					e[2+r.Intn(4)] = pick(r, []byte("/:@G`g"))
+				}
+				s = `"` + jvGoodStringBody(r) + string(e) + jvGoodStringBody(r) + `"`
 			case 1:
 				s = jvBadStrings[r.Intn(len(jvBadStrings))]
 			case 2: // a raw control character / stray quote / stray backslash somewhere in a good body
@@ -365,11 +376,29 @@ func genJSONValid(r *rand.Rand, n int, w *bufio.Writer) {
 			tr := []string{"", " ", "\n", "\t\r\n ", "{", "}", "[", "]", ",", ":", `"`, "{}", "[]", " {} ", " [] ", "[ ]", "{ }", "tru", "True", "nul", "nulll", "falsee", "null", "true", "false",
 				"t", "f", "n", "nil", "TRUE", "fals", "truefalse", "null null", "0", "-", "{{}}", "[{}]", "{[]}", `{"a"}`, `{"a":}`, `{:1}`, `{1:1}`, `{"a":1,}`, `[,]`, `[1,]`, `[,1]`, `{"a" 1}`, `{"a":1 "b":2}`, `[1 2]`,
 				`{"a":1,"a":2}`, `{"":0}`, `[[]]`, `[{}]`, `[[],[]]`, `{"a":{}}`, "\x00", "\xff", "\xef\xbb\xbf{}", "{\"a\":\n1}", "[1\n,\n2\n]", "{\"a\"\t:\r1}"}
-			emit("trivial", []byte(tr[r.Intn(len(tr))]))
-		case k < 750: // nesting: a few hundred deep, balanced and not; one case in 40 at the scanner's limit of 10000
+			t := tr[r.Intn(len(tr))]
+			if r.Intn(4) == 0 { // a literal with one letter replaced / removed / doubled
+				b := []byte([]string{"true", "false", "null"}[r.Intn(3)])
+				i := r.Intn(len(b))
+				switch r.Intn(3) {
+				case 0:
+					b[i] = pick(r, []byte("abcdefghijklmnopqrstuvwxyzTFN0 "))
+				case 1:
+					b = append(b[:i], b[i+1:]...)
+				default:
+					b = append(append(append([]byte{}, b[:i+1]...), b[i]), b[i+1:]...)
+				}
+				t = string(b)
+				if r.Intn(2) == 0 {
+					t = "[" + t + "]"
+				}
+			}
+			emit("trivial", []byte(t))
+		case k < 750: // nesting: a few hundred deep, balanced and not; one case in 25 at the scanner's limit of 10000
 			d := 1 + r.Intn(400)
-			if r.Intn(40) == 0 {
-				d = 9998 + r.Intn(5)
+			limit := r.Intn(25) == 0
+			if limit {
+				d = 9999 + r.Intn(4)
 			}
 			open, cl := "[", "]"
 			switch r.Intn(3) {
@@ -378,8 +407,8 @@ func genJSONValid(r *rand.Rand, n int, w *bufio.Writer) {
 			case 1:
 				open, cl = `[{"k":[`, "]}]"
 				d = (d + 2) / 3
-				if d > 3000 {
-					d = 3332 + r.Intn(4)
+				if limit {
+					d = 3333 + r.Intn(2) // 9999 / 10002 brackets
 				}
 			}
 			inner := []string{"", "1", `"s"`, "null", "{}", "[]"}[r.Intn(6)]
@@ -387,11 +416,13 @@ func genJSONValid(r *rand.Rand, n int, w *bufio.Writer) {
 				inner = "0"
 			}
 			dc := d
-			switch r.Intn(4) {
-			case 0:
-				dc = d - 1
-			case 1:
-				dc = d + 1
+			if !limit || r.Intn(4) == 0 {
+				switch r.Intn(4) {
+				case 0:
+					dc = d - 1
+				case 1:
+					dc = d + 1
+				}
 			}
 			if dc < 0 {
 				dc = 0
